@@ -45,10 +45,12 @@ type Call struct {
 }
 
 type Scenario struct {
-	Tasks   [][]Call `json:"tasks"`
-	Points  []int64  `json:"points"`
-	Targets []int    `json:"targets"`
-	Monitor bool     `json:"monitor"`
+	Tasks   [][]Call        `json:"tasks"`
+	Points  []int64         `json:"points"`
+	PointsW []int64         `json:"points_w"`
+	SitePts map[int][]int64 `json:"site_points"`
+	Targets []int           `json:"targets"`
+	Monitor bool            `json:"monitor"`
 }
 
 type ChildOut struct {
@@ -57,6 +59,8 @@ type ChildOut struct {
 	Deadlock string          `json:"deadlock"`
 	Races    []verifsim.Race `json:"races"`
 	Yields   int64           `json:"yields"`
+	YieldsW  int64           `json:"yields_w"`
+	SiteCnt  map[int]int64   `json:"site_counts"`
 	Hits     int             `json:"hits"`
 	HitSites []int           `json:"hit_sites"`
 	Switches int             `json:"switches"`
@@ -110,7 +114,7 @@ func childMain() {
 		os.Exit(2)
 	}
 	out := &ChildOut{Results: make([][]string, len(sc.Tasks))}
-	plan := &verifsim.Plan{Points: sc.Points}
+	plan := &verifsim.Plan{Points: sc.Points, PointsW: sc.PointsW, SitePoints: sc.SitePts}
 	sched := &verifsim.Sched{MaxDecisions: 100000, TrustLast: true}
 	seenHits := 0
 	sched.Choose = func(n, cur int) int {
@@ -162,6 +166,8 @@ func childMain() {
 	out.Deadlock = sched.Deadlock
 	out.Races = verifsim.Mon.Races
 	out.Yields = plan.Count
+	out.YieldsW = plan.CountW
+	out.SiteCnt = plan.SiteCount
 	out.Hits = plan.Hits
 	out.HitSites = plan.Sites
 	out.Switches = sched.Switches
@@ -190,15 +196,19 @@ type site struct {
 
 type Engine struct {
 	tier   string
-	solo   map[string]string // call key -> solo result
-	calib  map[string]int64  // scenario key -> yield count of the sequential run
+	solo   map[string]string        // call key -> solo result
+	calib  map[string]int64         // scenario key -> yield count of the sequential run
+	calibW map[string]int64         // ... count of "interesting" yields (global writes, lock boundaries)
+	calibS map[string]map[int]int64 // ... executions per interesting site
 	sites  []site
 	tmp    string
 	nchild int
 	exe    string
 }
 
-func New() sim.Engine { return &Engine{solo: map[string]string{}, calib: map[string]int64{}} }
+func New() sim.Engine {
+	return &Engine{solo: map[string]string{}, calib: map[string]int64{}, calibW: map[string]int64{}, calibS: map[string]map[int]int64{}}
+}
 
 func (e *Engine) Setup(tier string) error {
 	e.tier = tier
@@ -305,9 +315,11 @@ func (e *Engine) Run(t *tape.Tape, keep bool) *sim.Result {
 	sm.D = d
 	var fracs []int
 	var targets []int
+	var classW []int
 	for i := 0; i < 10; i++ {
 		fracs = append(fracs, t.Draw(1<<16))
 		targets = append(targets, t.Draw(8))
+		classW = append(classW, t.Draw(3)) // 0 any yield, 1 any interesting yield, 2 a random occurrence of a random interesting site
 	}
 	log.Add(fmt.Sprintf("tasks=%v d=%d", sm.Tasks, d))
 	fail := func(class, sig, detail string) *sim.Result {
@@ -347,8 +359,11 @@ func (e *Engine) Run(t *tape.Tape, keep bool) *sim.Result {
 		}
 		n = co.Yields
 		e.calib[skey] = n
+		e.calibW[skey] = co.YieldsW
+		e.calibS[skey] = co.SiteCnt
 		res.Probes["sequential_runs"]++
 	}
+	nw := e.calibW[skey]
 	sm.Yields = n
 	if d == 0 {
 		res.Steps++
@@ -356,12 +371,35 @@ func (e *Engine) Run(t *tape.Tape, keep bool) *sim.Result {
 		res.States = append(res.States, skey)
 		return res
 	}
-	pts := make([]int64, 0, d)
+	var pts, ptsW []int64
+	sitePts := map[int][]int64{}
+	var wsites []int
+	for sid := range e.calibS[skey] {
+		wsites = append(wsites, sid)
+	}
+	sort.Ints(wsites)
 	for i := 0; i < d; i++ {
-		pts = append(pts, 1+int64(fracs[i])*n/(1<<16))
+		if classW[i] == 2 && len(wsites) > 0 {
+			// every interesting site is equally likely, however rarely it executes
+			sid := wsites[fracs[i]%len(wsites)]
+			cnt := e.calibS[skey][sid]
+			k := 1 + int64(fracs[i]/len(wsites))%cnt
+			sitePts[sid] = append(sitePts[sid], k)
+			res.Probes["preemptions_placed_by_site"]++
+		} else if classW[i] == 1 && nw > 0 {
+			// placed over the interesting yields only: writes of package-level
+			// variables and the boundaries of critical sections
+			ptsW = append(ptsW, 1+int64(fracs[i])*nw/(1<<16))
+			res.Probes["preemptions_placed_at_write_or_lock_boundary"]++
+		} else {
+			pts = append(pts, 1+int64(fracs[i])*n/(1<<16))
+		}
 	}
 	sort.Slice(pts, func(i, j int) bool { return pts[i] < pts[j] })
+	sort.Slice(ptsW, func(i, j int) bool { return ptsW[i] < ptsW[j] })
 	sc.Points = pts
+	sc.PointsW = ptsW
+	sc.SitePts = sitePts
 	sc.Targets = targets
 	co, trouble := e.child(sc)
 	res.Steps++
